@@ -659,7 +659,26 @@ func frameOfMark(v uint64, n int) int {
 	return -1
 }
 
-func runTree(root *Node) (res treeResult) {
+// pre-state modes: 0 = the frames run on the uncommitted set-up (Finalise before the call);
+// >0 = the set-up is committed, a fresh state object is opened at that root, uncommitted earlier
+// effects of "the same block" are applied through the exported AccountDB API (no Finalise in
+// between), then the frames run.
+const (
+	preNone      = iota
+	preCommitted // committed pre-state, no earlier effects
+	preDrain     // balances of the sink, the beneficiary and the called contracts brought to exactly 0
+	preSetSlots  // the slots the frames write already hold a pending (uncommitted) value
+	preRemove    // slot 0 of every frame contract (committed non-empty) removed: pending empty value
+	preCreate    // sink and beneficiary accounts created (nonce 1) earlier in the block
+	preSuicide   // the called contracts selfdestructed earlier in the block (objects still alive)
+	nPre
+)
+
+var preName = []string{"uncommitted-setup", "committed", "drained-to-zero", "slots-pending", "slot0-removed", "accounts-created", "callees-selfdestructed"}
+
+var vaultAddr = fixedAddr(0x91, 0)
+
+func runTree(root *Node, pm int) (res treeResult) {
 	nodes := number(root)
 	res.nodes = nodes
 	b := &builder{deploy: map[common.Address][]byte{}}
@@ -679,6 +698,10 @@ func runTree(root *Node) (res treeResult) {
 	st.SetCode(helperAddr, asm.New().PushN(20, benAddr.Bytes()).Op(vm.SELFDESTRUCT).Bytes())
 	st.SetCode(burnerAddr, []byte{byte(vm.INVALID)})
 	st.SetBalance(treeOrigin, big.NewInt(1<<50))
+	if pm != preNone {
+		st.SetBalance(sinkAddr, big.NewInt(1<<44))
+		st.SetBalance(benAddr, big.NewInt(1<<45))
+	}
 	hasAuth := false
 	for _, n := range nodes {
 		hasAuth = hasAuth || n.E == eAuth
@@ -702,11 +725,65 @@ func runTree(root *Node) (res treeResult) {
 			}
 		}
 	}
-	init := observe(st, base, slots, false)
+	// committed pre-state + earlier effects of the same block; stB is the same history without
+	// the frames under test (its queries also seed the model, so that nothing is read on st
+	// between the earlier effects and the call)
+	var stB *account.AccountDB
+	if pm != preNone {
+		if hasAuth {
+			panic("AUTH effect is not combined with pre-state modes")
+		}
+		croot, cerr := st.Commit(true)
+		if cerr != nil {
+			panic(cerr)
+		}
+		st, stB = node.StateAt(croot), node.StateAt(croot)
+		for _, x := range []*account.AccountDB{st, stB} {
+			drain := func(a common.Address) {
+				bal := x.GetBalance(a)
+				x.SubBalance(a, bal)
+				x.AddBalance(vaultAddr, bal)
+			}
+			switch pm {
+			case preDrain:
+				drain(sinkAddr)
+				drain(benAddr)
+				for _, a := range callAddrs {
+					if a != root.addr {
+						drain(a)
+					}
+				}
+			case preSetSlots:
+				for _, a := range callAddrs {
+					for _, sl := range slots {
+						x.SetState(a, u2h(sl), u2h(0x99))
+					}
+				}
+			case preRemove:
+				for _, a := range callAddrs {
+					x.RemoveData(a, u2h(0).Bytes())
+				}
+			case preCreate:
+				x.SetNonce(sinkAddr, 1)
+				x.SetNonce(benAddr, 1)
+			case preSuicide:
+				for _, a := range callAddrs {
+					if a != root.addr {
+						x.Suicide(a)
+					}
+				}
+			}
+		}
+	}
+	seed := st
+	if stB != nil {
+		seed = stB
+	}
+	init := observe(seed, base, slots, false)
 	m := &model{w: &mworld{a: map[common.Address]*macct{}, tr: map[common.Address]map[uint64]uint64{}}, owner: map[common.Address]int{}}
 	for a, o := range init {
 		x := m.w.acct(a)
-		x.exists, x.nonce, x.code = o.Exist, o.Nonce, o.Code
+		x.exists, x.nonce, x.code, x.suicided = o.Exist, o.Nonce, o.Code, seed.HasSuicided(a)
 		bal, _ := new(big.Int).SetString(o.Bal, 10)
 		x.bal = bal.Int64()
 		for s, v := range o.St {
@@ -746,7 +823,16 @@ func runTree(root *Node) (res treeResult) {
 			st.SetCode(sigStore(n.idx), authInput(n.idx, n.ctx, v.sig == 2))
 		}
 	}
-	r0 := st.IntermediateRoot(true)
+	var r0, c0 common.Hash
+	if stB == nil {
+		r0 = st.IntermediateRoot(true)
+	} else {
+		r0 = stB.IntermediateRoot(true)
+		var cerr error
+		if c0, cerr = stB.Commit(true); cerr != nil {
+			panic(cerr)
+		}
+	}
 	st.Prepare(treeTxHash, common.Hash{}, 0)
 	evm := node.NewEVM(st, treeOrigin, execHeight, rootGas)
 	_, _, retLogs, err := evm.Call(vm.AccountRef(treeOrigin), root.addr, nil, rootGas, big.NewInt(0))
@@ -758,6 +844,15 @@ func runTree(root *Node) (res treeResult) {
 	gotLogs := obsLogs(st.GetLogs(treeTxHash))
 	r1 := st.IntermediateRoot(true)
 	post := observe(st, univ, slots, true) // balances and transient storage: compared before Finalise
+	phases := []map[common.Address]*obsAcct{pre, post}
+	var c1 common.Hash
+	if stB != nil {
+		var cerr error
+		if c1, cerr = st.Commit(true); cerr != nil {
+			panic(cerr)
+		}
+		phases = append(phases, observe(node.StateAt(c1), univ, slots, false))
+	}
 
 	add := func(part, text string, frame int, extra bool) {
 		res.diffs = append(res.diffs, diff{part, text, frame, extra})
@@ -777,12 +872,12 @@ func runTree(root *Node) (res treeResult) {
 		return -1
 	}
 	// accounts, before and after Finalise
-	for phase, got := range []map[common.Address]*obsAcct{pre, post} {
-		ph := []string{"pre-finalise", "post-finalise"}[phase]
+	for phase, got := range phases {
+		ph := []string{"pre-finalise", "post-finalise", "after Commit and re-open at the committed root"}[phase]
 		for _, a := range univ {
 			g := got[a]
 			w := m.w.acct(a)
-			wiped := phase == 1 && w.suicided
+			wiped := phase >= 1 && w.suicided
 			wExist, wNonce, wCode := w.exists, w.nonce, w.code
 			if wiped {
 				wExist, wNonce, wCode = false, 0, ""
@@ -798,7 +893,7 @@ func runTree(root *Node) (res treeResult) {
 				add("state", fmt.Sprintf("%s %s: code=%s want %s", ph, name, g.Code, wCode), ownerOf(a), g.Code != "")
 			}
 			wBal := fmt.Sprint(w.bal)
-			if phase == 0 && g.Bal != wBal {
+			if phase != 1 && g.Bal != wBal {
 				// every transfer amount is a distinct power of two: the lowest differing bit
 				// names a frame involved (value effect / CALL value / AUTHCALL value / create endowment)
 				f := -1
@@ -880,7 +975,10 @@ func runTree(root *Node) (res treeResult) {
 		cmpLogs("returned-logs", obsLogs(retLogs), m.w.logs)
 	}
 	if !res.ok && r1 != r0 {
-		add("root", fmt.Sprintf("failed top-level call (%v) changed the state root %x -> %x", err, r0[:6], r1[:6]), 0, true)
+		add("root", fmt.Sprintf("failed top-level call (%v) changed the state root: %x without it, %x with it", err, r0[:6], r1[:6]), 0, true)
+	}
+	if !res.ok && c1 != c0 {
+		add("root", fmt.Sprintf("failed top-level call (%v) changed the committed root: %x without it, %x with it", err, c0[:6], c1[:6]), 0, true)
 	}
 	surv := 0
 	for _, n := range nodes {
@@ -955,14 +1053,15 @@ type treeCase struct {
 	Part string `json:"part"`
 	Tree *Node  `json:"tree"`
 	Text string `json:"text"`
+	Pre  int    `json:"pre,omitempty"`
 }
 
 // checkTree runs one tree and records at most one violation per observable class.
-func checkTree(c *fw.Ctx, root *Node) {
+func checkTree(c *fw.Ctx, root *Node, pm int) {
 	c.Eval(1)
 	var res treeResult
-	if p, v, where := fw.Try(func() { res = runTree(root) }); p {
-		c.Violation("C12:panic:"+where, "frame-trees", fmt.Sprintf("panic %v in %s", v, root), treeCase{"tree", root.clone(), root.String()})
+	if p, v, where := fw.Try(func() { res = runTree(root, pm) }); p {
+		c.Violation("C12:panic:"+where, "frame-trees", fmt.Sprintf("panic %v in %s", v, root), treeCase{"tree", root.clone(), root.String() + " on " + preName[pm], pm})
 		return
 	}
 	c.Outcome(res.summary)
@@ -1011,13 +1110,13 @@ func checkTree(c *fw.Ctx, root *Node) {
 		return // the framework keeps three examples per signature; these are all recorded
 	}
 	// same input, same observation (fresh state object)
-	again := runTree(root.clone())
+	again := runTree(root.clone(), pm)
 	if fmt.Sprint(diffTexts(again.diffs)) != fmt.Sprint(diffTexts(res.diffs)) {
-		c.Violation("C12:nondeterministic", "frame-trees", fmt.Sprintf("two runs of %s differ: %v vs %v", root, diffTexts(res.diffs), diffTexts(again.diffs)), treeCase{"tree", root.clone(), root.String()})
+		c.Violation("C12:nondeterministic", "frame-trees", fmt.Sprintf("two runs of %s differ: %v vs %v", root, diffTexts(res.diffs), diffTexts(again.diffs)), treeCase{"tree", root.clone(), root.String() + " on " + preName[pm], pm})
 		return
 	}
 	for _, r := range recs {
-		c.Violation(r.sig, "frame-trees", fmt.Sprintf("%s  in tree %s", r.d.text, root), treeCase{"tree", root.clone(), root.String()})
+		c.Violation(r.sig, "frame-trees", fmt.Sprintf("%s  in tree %s on pre-state %s", r.d.text, root, preName[pm]), treeCase{"tree", root.clone(), root.String() + " on " + preName[pm], pm})
 	}
 }
 
